@@ -294,14 +294,14 @@ func coqSecTree(n *secNode) string {
 	return fmt.Sprintf("(SNode (mkSect %d %d %d) [%s])", n.H, n.B, n.E, strings.Join(cs, "; "))
 }
 
-func coqCT(ct []ctEntry) string {
+func coqCT(ct []ctEntry, name string) string {
 	s := make([]string, len(ct))
 	for i, e := range ct {
 		k := "CtMessage"
 		if e.Kind == 2 {
 			k = "(CtMultipart " + common.CoqBytes(e.Boundary) + ")"
 		}
-		s[i] = "(" + common.CoqBytes(e.Hdr) + ", " + k + ")"
+		s[i] = fmt.Sprintf("(slice %s %d %d, %s)", name, e.A, e.B, k)
 	}
 	return "[" + strings.Join(s, "; ") + "]"
 }
@@ -333,8 +333,10 @@ func run(ctx *common.Ctx) error {
 	r := &runner{timeout: 240 * time.Second}
 	defer func() { r.c.kill() }()
 	var lines []string
+	var defs strings.Builder // input literals, defined once
 	id := 0
 	modelCases := 0
+	wfCases := 0
 	nextID := func() int { id++; return id }
 
 	fail := func(canon, detail string, c interface{}) { res.Fail(canon, detail, c) }
@@ -370,11 +372,13 @@ func run(ctx *common.Ctx) error {
 	}
 
 	emitGeneric := func(data []byte, resp *response) {
-		if resp == nil || len(data) > 400 || modelCases > 900 {
+		if resp == nil || len(data) > 400 || defs.Len() > 45000 {
 			return
 		}
+		name := fmt.Sprintf("G%d", nextID())
+		fmt.Fprintf(&defs, "Definition %s : bytes := %s.\n", name, common.CoqBytes(data))
 		if resp.Tree != nil && resp.Parts <= 40 {
-			lines = append(lines, fmt.Sprintf("CParse %d %s %s %s", nextID(), common.CoqBytes(data), coqCT(resp.CT), coqSecTree(resp.Tree)))
+			lines = append(lines, fmt.Sprintf("CParse %d %s %s %s", nextID(), name, coqCT(resp.CT, name), coqSecTree(resp.Tree)))
 			modelCases++
 		}
 		hdr := headerOf(data)
@@ -387,14 +391,15 @@ func run(ctx *common.Ctx) error {
 				}
 				obs = "(Some [" + strings.Join(ks, "; ") + "])"
 			}
-			lines = append(lines, fmt.Sprintf("CHeader %d %s %s", nextID(), common.CoqBytes(hdr), obs))
+			lines = append(lines, fmt.Sprintf("CHeader %d (firstn %d %s) %s", nextID(), len(hdr), name, obs))
 			modelCases++
 		}
-		if resp.Err == "" && resp.Body != nil {
+		if resp.Err == "" && resp.Body != nil && wfCases < 45 {
 			for _, t := range [][]byte{resp.Body, resp.Structure, resp.Envelope} {
-				if len(t) <= 600 {
+				if len(t) <= 300 {
 					lines = append(lines, fmt.Sprintf("CWf %d %s", nextID(), common.CoqBytes(t)))
 					modelCases++
+					wfCases++
 				}
 			}
 		}
@@ -535,7 +540,7 @@ func run(ctx *common.Ctx) error {
 			continue // not compared with the model: the oracle failure is the finding
 		}
 		// cases.v: exact equality with the model's writer (ASCII strings only: the model's Quote is ASCII)
-		if ascii && len(msg) <= 900 && structCases < ctx.Budget(70, 300) && modelCases < 900 {
+		if ascii && len(msg) <= 700 && structCases < ctx.Budget(28, 150) {
 			lines = append(lines, fmt.Sprintf("CStruct %d %s %s %s %s", nextID(), mimegen.CoqTree(tree, msg),
 				common.CoqBytes(resp.Body), common.CoqBytes(resp.Structure), common.CoqBytes(resp.Envelope)))
 			structCases++
@@ -579,7 +584,7 @@ func run(ctx *common.Ctx) error {
 	}
 
 	res.ModelCases = modelCases
-	return common.WriteCases(ctx.Out, "Run.RunC12", "case", lines, "")
+	return common.WriteCases(ctx.Out, "Run.RunC12", "case", lines, defs.String())
 }
 
 // headerOf: the header part as rfc822.Split defines it (lines up to and including the first blank line).
